@@ -158,8 +158,11 @@ def restore (c : StoreCfg) (st : FileSt) (m : Node) : FileSt :=
 
 /-- `Store.Push`. -/
 def push (c : StoreCfg) (recordEarly : Bool) (st : FileSt) (d : SDesc) (good : Bool) (forceCAS : Bool := false)
-    (noOverwrite : Bool := false) (removeOnFail : Bool := false) :
+    (noOverwrite : Bool := false) (removeOnFail : Bool := false) (ignoreNoName : Bool := false) :
     FileSt × Except SErr Unit :=
+  -- `IgnoreNoName`: content without a title is discarded, the push reports success, and
+  -- nothing is restored or indexed
+  if ignoreNoName ∧ d.name = none then (st, .ok ()) else
   let r : FileSt × Except SErr Unit :=
     match d.name with
     | none =>
